@@ -30,15 +30,47 @@ reg("C10",
 
 reg("C10",
     name="C10_map2", src="harness/C10_map2.cpp", anchor_files=_ANCH,
-    quick=dict(defs=dict(NKEYS=2, NCYC=3), symx=dict(shards=16, **{"max-wall": 900, "query-timeout-ms": 120000})),
-    thorough=dict(defs=dict(NKEYS=2, NCYC=4), symx=dict(shards=16, **{"max-wall": 3000, "shard-depth": 8, "query-timeout-ms": 120000})),
+    quick=dict(defs=dict(NKEYS=2, NCYC=3, FMASK=2), symx=dict(shards=16, **{"max-wall": 900, "query-timeout-ms": 120000})),
+    thorough=dict(defs=dict(NKEYS=2, NCYC=4, FMASK=3), symx=dict(shards=16, **{"max-wall": 3000, "shard-depth": 8, "query-timeout-ms": 120000})),
     reach=["end", "key_left_one_dictionary_keyset_unchanged", "remaining_input_ticks_after_element_left", "element_returned_to_dictionary",
-           "key_joined_keyset_with_held_elements", "key_in_only_one_dictionary", "key_left_keyset", "key_rejoined_keyset"],
+           "key_joined_keyset_with_held_elements", "key_in_only_one_dictionary", "key_left_keyset", "key_rejoined_keyset",
+           "tick_inspecting_instance_created_over_held_element", "tick_inspecting_instance_one_input_ticks_other_held",
+           "tick_inspecting_first_evaluation_after_join_cycle"],
     bounds="map_(add, A, B, __keys__=K): TWO multiplexed TSD<int,TS<int>> sources with differing key sets and an explicit scripted TSS<int> key set; NCYC "
            "cycles; key 0: per cycle A {nothing, set, erase} x B {nothing, set, erase} x K {nothing, toggle membership} (all combinations); keys 1..NKEYS-1: "
            "{nothing, all-in / all-out, update A}; element values unconstrained symbolic int64; model: instance per key of K, add(a,b) writes a+b when an "
-           "input ticks (or on creation) and both elements are present, stays silent after an element left until it returns",
+           "input ticks (or on creation) and both elements are present, stays silent after an element left until it returns; mapped function FMASK "
+           "(quick: count only, thorough: add and count): count(a,b) = a+b+acc with acc += 1000*[a.modified()] + 10^6*[b.modified()] per evaluation looks at "
+           "WHICH input ticked - an instance created over elements that pre-exist in A / B sees each of them ticking exactly once, at creation "
+           "(count has add's evaluation pattern and its output contains add's, so it dominates add)",
     outside=_OUT,
+    )
+
+_TQUICK = "{2,0,3,127},{1,3,3,67}"
+_TTHOROUGH = "{2,0,4,127},{3,0,3,67},{1,6,3,127}"
+reg("C10",
+    name="C10_ticked", src="harness/C10_ticked.cpp", anchor_files=_ANCH + ["src/hgraph/types/time_series/ts_input/target_link.cpp",
+                                                                         "src/hgraph/types/time_series/ts_input/base_view.cpp"],
+    quick=dict(defs=dict(CONFIGS=_TQUICK), symx=dict(shards=16, **{"max-wall": 900, "query-timeout-ms": 120000})),
+    thorough=dict(defs=dict(CONFIGS=_TTHOROUGH), symx=dict(shards=16, **{"max-wall": 3000, "shard-depth": 8, "query-timeout-ms": 120000})),
+    reach=["end", "key_added_while_broadcast_held_not_ticking", "key_readded_after_removal_while_broadcast_held", "burst_of_keys_added_while_broadcast_held",
+           "key_added_in_cycle_broadcast_ticks", "key_added_before_broadcast_ever_ticked", "first_evaluation_when_late_broadcast_arrives_element_not_ticking",
+           "element_update_alone_broadcast_held", "sibling_updated_in_cycle_another_key_was_created", "evaluation_with_no_input_ticking",
+           "broadcast_tick_alone", "passive_broadcast_ticked_without_evaluation", "key_removed", "key_removed_and_added_later",
+           "fresh_child_sees_whole_held_set_as_delta", "key_added_in_cycle_set_lost_an_element", "live_child_sees_set_removal"],
+    bounds="map_(f, D, b): one multiplexed TSD<int,TS<int>> and one broadcast (non-multiplexed) argument; configurations {NKEYS, BULK, NCYC, FMASK}: quick "
+           + _TQUICK + "; thorough " + _TTHOROUGH + "; per cycle every one of NKEYS keys does {nothing, set, remove, erase+set}, a group of BULK further keys "
+           "is added / updated / removed as a unit (burst), the broadcast source {ticks, does not tick} - so keys appear (first add, re-add after removal, "
+           "burst) in cycles in which the broadcast holds a value but does NOT tick, ticks too, or has never ticked; mapped functions that look at WHICH "
+           "input ticked (FMASK bits): latch (records b only when b.modified()), per-input tick counter, the counter with a PASSIVE b, with a leading key "
+           "parameter (counts key.modified()), with a self-scheduled wake-up (counts evaluations in which no input ticked), with an UNCHECKED b (runs "
+           "before the broadcast ever ticked), and a broadcast TSS<int> whose added()/removed() delta and size the function accumulates (set script per "
+           "cycle {nothing, add next element, remove lowest}); every element / broadcast value unconstrained symbolic int64; model: isolated instance per "
+           "key which sees every input that already holds a value ticking once in the cycle it is created (a collection: its whole value as the delta) "
+           "and afterwards only real ticks; checked after every engine cycle plus one trailing cycle",
+    outside=_OUT + "; valueless (phantom) keys and add+remove within one cycle (C10_map); TSD / TSL / TSB shaped broadcast arguments; removed() of a broadcast set "
+           "in the instance's very first evaluation (left open: the statement does not say whether a fresh instance sees removals that predate it); "
+           "more keys / cycles",
     )
 
 META = dict(
